@@ -226,9 +226,17 @@ def estimate_events(ctx, lz, coders, D):
             else:
                 assert L.lzma_index_cat(cur, i, al.ptr()) == lz.OK
         est = L.lzma_index_memusage(streams, blocks)
-        add("lzma_index_memusage", est, al.cur, "index streams=%d blocks=%d (allocator)" % (streams, blocks))
-        add("lzma_index_memusage", est, L.lzma_index_memused(cur), "index streams=%d blocks=%d (memused)" % (streams, blocks))
-        add("lzma_index_memused", L.lzma_index_memused(cur), al.cur, "index memused vs allocator streams=%d blocks=%d" % (streams, blocks))
+        if streams == 1:
+            # what lzma_index_decoder compares with its limit (lzma_index_memusage(1, count)): must be an upper bound
+            add("lzma_index_memusage", est, al.cur, "index streams=%d blocks=%d (allocator)" % (streams, blocks))
+            add("lzma_index_memusage", est, L.lzma_index_memused(cur), "index streams=%d blocks=%d (memused)" % (streams, blocks))
+            add("lzma_index_memused", L.lzma_index_memused(cur), al.cur, "index memused vs allocator streams=%d blocks=%d" % (streams, blocks))
+        else:
+            # documented as approximate; for Indexes combined with lzma_index_cat the per-Stream rounding of Record
+            # groups makes it a few percent too small: recorded, not judged (the decoders' limits are judged directly)
+            ctx.extra.setdefault("index_memusage_multistream_info", []).append(
+                dict(streams=streams, blocks=blocks, lzma_index_memusage=int(est), lzma_index_memused=int(L.lzma_index_memused(cur)),
+                     allocated=int(al.cur)))
         L.lzma_index_end(cur, al.ptr())
     return ev
 
